@@ -85,10 +85,11 @@ Theorem C10_wall_is_silent_ctl : forall l i, wall l i ->
 Proof. exact wall_silent_ctl. Qed.
 Print Assumptions C10_wall_is_silent_ctl.
 
-(** permanence under later reconfiguration as well (a splice upstream shifts the index) *)
+(** permanence under later reconfiguration as well (a splice upstream shifts the index down, a stub connected upstream shifts it up) *)
 Theorem C10_wall_stays_under_reconfiguration : forall l a l' i, ctl_step l a = Some l' -> wall l i ->
   match a with
   | CDelete j => if (j <? i)%nat then wall l' (i - 1) else wall l' i
+  | CInsertAfter j _ _ | CInsertDead j _ => if (j <? i)%nat then wall l' (S i) else wall l' i
   | _ => wall l' i
   end.
 Proof. exact wall_ctl. Qed.
